@@ -150,6 +150,14 @@ package files
 //@     return forall(0, len(cs), func(i int) bool { return planEntryOK(cs[i], mtimeSet) })
 //@ }
 //
+//@ spec func planEntryInputOK(c *Content, mtimeSet bool) bool {
+//@     return c != nil && c.FileInfo != nil && implies(mtimeSet, !c.FileInfo.MTime.IsZero())
+//@ }
+//
+//@ spec func SpecPlanInputOK(cs Contents, mtimeSet bool) bool {
+//@     return forall(0, len(cs), func(i int) bool { return planEntryInputOK(cs[i], mtimeSet) })
+//@ }
+//
 //@ spec func SpecContentsNonNil(cs Contents) bool {
 //@     return forall(0, len(cs), func(i int) bool { return cs[i] != nil })
 //@ }
